@@ -23,11 +23,11 @@ SHRINK = False
 def reduce_candidates(cell, case):
     main = "vecs" if "vecs" in case else "pairs"
     # one element of one list at a time, the others emptied; then a single tolerance
-    for key in (main, "bnd"):
-        other = "bnd" if key == main else main
-        if len(case[key]) + len(case[other]) > 1:
+    keys = [k for k in (main, "bnd", "raw") if k in case]
+    if sum(len(case[k]) for k in keys) > 1:
+        for key in keys:
             for el in case[key]:
-                yield {**case, key: [el], other: []}
+                yield {**case, **{k: [] for k in keys}, key: [el]}
     if len(case["tol"]) > 1:
         for t in case["tol"]:
             yield {**case, "tol": [t]}
@@ -91,6 +91,11 @@ def examples(cell, tier):
     return 2 if tier == "quick" else 25
 
 
+def _mag_or_zero(lo, hi):
+    """exactly zero, or a value of either sign whose magnitude is in [lo, hi] (no subnormal / underflowing values)"""
+    return st.one_of(st.just(0.0), st.builds(lambda s, m: s * m, st.sampled_from((1.0, -1.0)), st.floats(lo, hi)))
+
+
 def strategy(cell, tier):
     d = cell["d"]
     strata = opcheck.STRATA_BY_DIM[d]
@@ -100,6 +105,13 @@ def strategy(cell, tier):
             "vecs": st.tuples(*parts).map(list),
             "bnd": st.lists(st.sampled_from(BOUNDARY), min_size=3, max_size=6),
             "tol": st.lists(gen.tolerance(), min_size=3, max_size=3),
+            # stored coordinates generated directly (not derived from a Cartesian vector): any rho >= 0, phi, theta in their
+            # ranges, any eta, z, t and tau of either sign - including tau < 0 with |tau| > mag
+            "raw": st.lists(st.fixed_dictionaries({
+                "rho": st.one_of(st.just(0.0), st.floats(1e-3, 50.0)), "phi": _mag_or_zero(1e-3, math.pi), "x": _mag_or_zero(1e-3, 50.0),
+                "y": _mag_or_zero(1e-3, 50.0), "z": _mag_or_zero(1e-3, 50.0), "theta": st.floats(1e-3, math.pi - 1e-3),
+                "eta": _mag_or_zero(1e-3, 6.0), "t": _mag_or_zero(1e-3, 80.0),
+                "tau": st.one_of(_mag_or_zero(1e-3, 80.0), _mag_or_zero(1e-3, 3.0))}), min_size=4, max_size=4),
         })
     parts = [gen.pair((s,), strata_b=strata) for s in strata]
     return st.fixed_dictionaries({
@@ -202,6 +214,12 @@ def _check_unary(cell, case, ctx):
                 ctx.exclude("operand_not_representable")
                 continue
             carts.append(b[:d]); rows.append(r); labels.append("boundary")
+    if not mp_:
+        for raw in case.get("raw", []):
+            r = tuple(float(raw[nm]) for nm in R.coord_names(sa))
+            ex = R.to_cartesian(sa, r)
+            if all(obs.finite(x) for x in ex):
+                carts.append([float(x) for x in ex]); rows.append(r); labels.append("raw")
     if not rows:
         return
     vs = _mk(be, sa, rows)
